@@ -6,6 +6,14 @@ not only the sampled correspondence.  Meaning-preserving rewrites (renamed local
 elif chains, a local assigned in every branch and stored once, the section filter hoisted into a comprehension) still
 translate and still prove.
 
+Normalisations done on the Python AST before the translation (each keeps the meaning):
+  * a call of a helper defined in the same module / the same class (not recursive, parameters never re-bound) that
+    is the whole right-hand side of an assignment / the returned value / the iterable of a list comprehension is
+    INLINED: parameters are replaced by the (pure) argument expressions or bound to fresh locals, the helper's
+    locals are renamed apart, its `return e` in tail positions become `<fresh> = e`;
+  * try/except/else: `f = False; try: body; f = True except ...; if f: else-part` with a fresh local f;
+  * R.match(x) without bool() where only its truth value is used (test of an if, operand of not/and/or inside one).
+
 Fail-closed: any statement, expression, call or exception class outside the recognised shapes aborts the generation with
 `unrecognised shape`.  Pinned (checked here, not translated): the prologue of IniConfigParser.parse (ConfigParser(),
 read_string inside try/except -> ConfigFileParserException), the two loop headers, `return result`; exception MESSAGES are
@@ -85,7 +93,11 @@ class Fn:
         return self.var(name)
 
     # ---- expressions
-    def expr(self, e):
+    def expr(self, e, boolctx=False):
+        if boolctx and isinstance(e, ast.Call) and isinstance(e.func, ast.Attribute) and e.func.attr == 'match' \
+                and isinstance(e.func.value, ast.Name) and e.func.value.id in REGEX and len(e.args) == 1 and not e.keywords:
+            # only the truth value of the match object is used here
+            return 'EReMatch %s (%s)' % (REGEX[e.func.value.id], self.expr(e.args[0]))
         if isinstance(e, ast.Name):
             return 'EVar %s' % self.use(e.id, e)
         if isinstance(e, ast.Constant):
@@ -102,10 +114,10 @@ class Fn:
                 and e.attr == 'split_ml_text_to_list':
             return 'ESplitFlag'
         if isinstance(e, ast.UnaryOp) and isinstance(e.op, ast.Not):
-            return 'ENot (%s)' % self.expr(e.operand)
+            return 'ENot (%s)' % self.expr(e.operand, True)
         if isinstance(e, ast.BoolOp):
             op = 'EAnd' if isinstance(e.op, ast.And) else 'EOr'
-            parts = [self.expr(v) for v in e.values]
+            parts = [self.expr(v, boolctx) for v in e.values]
             r = parts[-1]
             for p in reversed(parts[:-1]):          # a and b and c == a and (b and c), values and short-circuit alike
                 r = '%s (%s) (%s)' % (op, p, r)
@@ -145,7 +157,7 @@ class Fn:
                             and isinstance(a.func.value, ast.Name) and a.func.value.id in REGEX and len(a.args) == 1 \
                             and not a.keywords:
                         return 'EReMatch %s (%s)' % (REGEX[a.func.value.id], self.expr(a.args[0]))
-                    return 'EBool (%s)' % self.expr(a)
+                    return 'EBool (%s)' % self.expr(a, True)
                 if f.id == 'literal_eval' and len(e.args) == 1 and not e.keywords:
                     return 'ELiteralEval (%s)' % self.expr(e.args[0])
                 if f.id == 'isinstance' and len(e.args) == 2 and not e.keywords and isinstance(e.args[1], ast.Name) \
@@ -241,7 +253,7 @@ class Fn:
                 bad('raise ... from', s)
             return 'SRaise %s' % EXC_RAISE[x.func.id]
         if isinstance(s, ast.If):
-            c = self.expr(s.test)
+            c = self.expr(s.test, True)
             before = set(self.assigned)
             th = self.block(s.body)
             a1 = self.assigned
@@ -293,6 +305,226 @@ class Fn:
         bad('statement %s' % type(s).__name__, s)
 
 
+
+# ------------------------------------------------------------------------------------------------ AST normalisation
+def always_leaves(stmts):
+    if not stmts:
+        return False
+    s = stmts[-1]
+    if isinstance(s, (ast.Return, ast.Raise, ast.Continue)):
+        return True
+    if isinstance(s, ast.If):
+        return always_leaves(s.body) and always_leaves(s.orelse)
+    if isinstance(s, ast.Try):
+        return not s.orelse and not s.finalbody and always_leaves(s.body) and all(always_leaves(h.body) for h in s.handlers)
+    return False
+
+
+def has_return(node):
+    return any(isinstance(n, ast.Return) for n in ast.walk(node))
+
+
+def name_load(n):
+    return ast.Name(id=n, ctx=ast.Load())
+
+
+def assign(n, value):
+    return ast.Assign(targets=[ast.Name(id=n, ctx=ast.Store())], value=value)
+
+
+class Rename(ast.NodeTransformer):
+    def __init__(self, subst, ren):
+        self.subst, self.ren = subst, ren
+
+    def visit_Name(self, n):
+        if n.id in self.subst:
+            if not isinstance(n.ctx, ast.Load):
+                bad('helper re-binds its parameter %r' % n.id, n)
+            import copy
+            return copy.deepcopy(self.subst[n.id])
+        if n.id in self.ren:
+            return ast.Name(id=self.ren[n.id], ctx=n.ctx)
+        return n
+
+    def visit_ExceptHandler(self, h):
+        self.generic_visit(h)
+        if h.name and h.name in self.ren:
+            h.name = self.ren[h.name]
+        return h
+
+
+class Normaliser:
+    """inlines helper calls, removes try/else; see the module docstring"""
+    def __init__(self, helpers, selfname):
+        self.helpers = helpers          # name -> FunctionDef (module level)   'self.name' -> FunctionDef (method)
+        self.selfname = selfname
+        self.n = 0
+        self.depth = 0
+
+    def fresh(self, base):
+        self.n += 1
+        return '_n%d_%s' % (self.n, base)
+
+    def callee(self, c):
+        if not isinstance(c, ast.Call):
+            return None
+        f = c.func
+        if isinstance(f, ast.Name) and f.id in self.helpers:
+            return self.helpers[f.id], False
+        if isinstance(f, ast.Attribute) and isinstance(f.value, ast.Name) and f.value.id == self.selfname \
+                and ('self.' + f.attr) in self.helpers:
+            return self.helpers['self.' + f.attr], True
+        return None
+
+    def site(self, e):
+        """(get, set) for the helper call this expression holds in an inlinable position, or None"""
+        if e is None:
+            return None
+        if self.callee(e):
+            return e, (lambda new: new)
+        if isinstance(e, ast.ListComp) and len(e.generators) == 1 and self.callee(e.generators[0].iter):
+            def put(new, e=e):
+                g = e.generators[0]
+                return ast.ListComp(elt=e.elt, generators=[ast.comprehension(target=g.target, iter=new, ifs=g.ifs,
+                                                                              is_async=g.is_async)])
+            return e.generators[0].iter, put
+        # a helper call anywhere else would have to be evaluated out of order: refuse
+        for n in ast.walk(e):
+            if self.callee(n):
+                bad('call of a helper in a position that cannot be inlined', e)
+        return None
+
+    def ret2assign(self, stmts, tmp):
+        out = []
+        for i, s in enumerate(stmts):
+            rest = stmts[i + 1:]
+            if isinstance(s, ast.Return):
+                out.append(assign(tmp, s.value if s.value is not None else ast.Constant(value=None)))
+                return out
+            if not has_return(s):
+                out.append(s)
+                continue
+            if isinstance(s, ast.If):
+                if always_leaves(s.body):
+                    out.append(ast.If(test=s.test, body=self.ret2assign(s.body, tmp),
+                                      orelse=self.ret2assign(list(s.orelse) + rest, tmp)))
+                    return out
+                if s.orelse and always_leaves(s.orelse):
+                    out.append(ast.If(test=s.test, body=self.ret2assign(list(s.body) + rest, tmp),
+                                      orelse=self.ret2assign(s.orelse, tmp)))
+                    return out
+                bad('helper returns from a branch that may also fall through', s)
+            if isinstance(s, ast.Try) and not s.orelse and not s.finalbody and always_leaves([s]):
+                hs = [ast.ExceptHandler(type=h.type, name=h.name, body=self.ret2assign(h.body, tmp)) for h in s.handlers]
+                out.append(ast.Try(body=self.ret2assign(s.body, tmp), handlers=hs, orelse=[], finalbody=[]))
+                return out
+            bad('return inside a statement of a helper that cannot be normalised', s)
+        if not always_leaves(out):
+            out.append(assign(tmp, ast.Constant(value=None)))      # falls off the end: returns None
+        return out
+
+    def expand(self, call, tmp):
+        """statements that compute the helper call into the fresh local tmp"""
+        fn, is_method = self.callee(call)
+        self.depth += 1
+        if self.depth > 6:
+            bad('helpers nest too deep (recursive?)', call)
+        a = fn.args
+        if a.vararg or a.kwarg or a.kwonlyargs or a.posonlyargs or fn.decorator_list:
+            bad('signature / decorators of helper %s' % fn.name, fn)
+        params = [x.arg for x in a.args]
+        if is_method:
+            if not params or params[0] != self.selfname:
+                bad('first parameter of method %s' % fn.name, fn)
+            params = params[1:]
+        defaults = [None] * (len(params) - len(a.defaults)) + list(a.defaults)
+        given = {}
+        if len(call.args) > len(params):
+            bad('too many arguments for %s' % fn.name, call)
+        for p_, x in zip(params, call.args):
+            given[p_] = x
+        for kw in call.keywords:
+            if kw.arg is None or kw.arg not in params or kw.arg in given:
+                bad('keyword argument for %s' % fn.name, call)
+            given[kw.arg] = kw.value
+        pre, subst = [], {}
+        for p_, d in zip(params, defaults):
+            x = given.get(p_, d)
+            if x is None:
+                bad('missing argument %s of %s' % (p_, fn.name), call)
+            pure = isinstance(x, (ast.Name, ast.Constant)) or (
+                isinstance(x, ast.Attribute) and isinstance(x.value, ast.Name) and x.value.id == self.selfname)
+            if pure:
+                subst[p_] = x
+            else:
+                v = self.fresh(p_)
+                pre.append(assign(v, x))
+                subst[p_] = name_load(v)
+        body = strip_doc(fn.body)
+        for n in ast.walk(ast.Module(body=body, type_ignores=[])):
+            if isinstance(n, (ast.FunctionDef, ast.Lambda, ast.Global, ast.Nonlocal, ast.ClassDef, ast.Yield, ast.YieldFrom,
+                              ast.For, ast.While, ast.With)):
+                bad('helper %s contains %s' % (fn.name, type(n).__name__), n)
+        locs = set()
+        for n in ast.walk(ast.Module(body=body, type_ignores=[])):
+            if isinstance(n, ast.Name) and isinstance(n.ctx, ast.Store) and n.id not in subst:
+                locs.add(n.id)
+            if isinstance(n, ast.ExceptHandler) and n.name:
+                locs.add(n.name)
+            if isinstance(n, ast.comprehension) and isinstance(n.target, ast.Name):
+                locs.discard(n.target.id)
+        ren = dict((l, self.fresh(l)) for l in sorted(locs))
+        import copy
+        body = [Rename(subst, ren).visit(copy.deepcopy(st)) for st in body]
+        out = pre + self.block(self.ret2assign(body, tmp))
+        self.depth -= 1
+        return out
+
+    def block(self, stmts):
+        out = []
+        for s in stmts:
+            out.extend(self.stmt(s))
+        return out
+
+    def stmt(self, s):
+        if isinstance(s, ast.If):
+            if self.site(s.test):
+                bad('helper call in the test of an if', s)
+            return [ast.If(test=s.test, body=self.block(s.body), orelse=self.block(s.orelse))]
+        if isinstance(s, ast.Try):
+            if s.finalbody:
+                bad('try/finally', s)
+            hs = [ast.ExceptHandler(type=h.type, name=h.name, body=self.block(h.body)) for h in s.handlers]
+            body = self.block(s.body)
+            if not s.orelse:
+                return [ast.Try(body=body, handlers=hs, orelse=[], finalbody=[])]
+            flag = self.fresh('no_exception')
+            return [assign(flag, ast.Constant(value=False)),
+                    ast.Try(body=body + [assign(flag, ast.Constant(value=True))], handlers=hs, orelse=[], finalbody=[]),
+                    ast.If(test=name_load(flag), body=self.block(s.orelse), orelse=[])]
+        if isinstance(s, (ast.Assign, ast.AnnAssign, ast.Return, ast.Expr)):
+            st = self.site(getattr(s, 'value', None))
+            if st is None:
+                return [s]
+            call, put = st
+            tmp = self.fresh('ret')
+            pre = self.expand(call, tmp)
+            new_value = put(name_load(tmp))
+            if isinstance(s, ast.Assign):
+                new = ast.Assign(targets=s.targets, value=new_value)
+            elif isinstance(s, ast.AnnAssign):
+                new = ast.Assign(targets=[s.target], value=new_value)
+            elif isinstance(s, ast.Return):
+                new = ast.Return(value=new_value)
+            else:
+                new = ast.Expr(value=new_value)
+            return pre + [new]
+        for n in ast.walk(s):
+            if self.callee(n):
+                bad('helper call inside %s' % type(s).__name__, s)
+        return [s]
+
+
 def pin(cond, what):
     if not cond:
         bad('pinned code changed: ' + what)
@@ -337,7 +569,7 @@ def item_loop(parse):
     pin(isinstance(rest[-1], ast.Return) and isinstance(rest[-1].value, ast.Name), 'return <result>')
     result = rest[-1].value.id
     rest = rest[:-1]
-    SECS = 'config.sections() + [configparser.DEFAULTSECT]'
+    SECS = ('config.sections() + [configparser.DEFAULTSECT]', '[*config.sections(), configparser.DEFAULTSECT]')
     selected = None
     loops = []
     seen_result = False
@@ -348,11 +580,11 @@ def item_loop(parse):
             if tgt == result and val == 'OrderedDict()' and not seen_result:
                 seen_result = True
                 continue
-            # selected = [n for n in <sections> if n in self.sections]
+            # selected = [n for n in <sections> if n in self.sections]   (a list or a generator, used once)
             v = s.value
-            if (selected is None and isinstance(v, ast.ListComp) and len(v.generators) == 1
+            if (selected is None and isinstance(v, (ast.ListComp, ast.GeneratorExp)) and len(v.generators) == 1
                     and isinstance(v.generators[0].target, ast.Name) and isinstance(v.elt, ast.Name)
-                    and v.elt.id == v.generators[0].target.id and ast.unparse(v.generators[0].iter) == SECS
+                    and v.elt.id == v.generators[0].target.id and ast.unparse(v.generators[0].iter) in SECS
                     and len(v.generators[0].ifs) == 1
                     and ast.unparse(v.generators[0].ifs[0]) == '%s in self.sections' % v.elt.id):
                 selected = tgt
@@ -371,12 +603,16 @@ def item_loop(parse):
     if selected is not None:
         pin(ast.unparse(outer.iter) == selected, 'section loop iterates over the filtered list')
     else:
-        pin(ast.unparse(outer.iter) == SECS, 'section loop iterable')
+        pin(ast.unparse(outer.iter) in SECS, 'section loop iterable')
         f = ob[0] if ob else None
-        ok = (isinstance(f, ast.If) and not f.orelse and len(f.body) == 1 and isinstance(f.body[0], ast.Continue)
-              and ast.unparse(f.test) == '%s not in self.sections' % sec)
-        pin(ok, '`if <section> not in self.sections: continue` at the top of the section loop')
-        ob = ob[1:]
+        if (isinstance(f, ast.If) and not f.orelse and len(f.body) == 1 and isinstance(f.body[0], ast.Continue)
+                and ast.unparse(f.test) == '%s not in self.sections' % sec):
+            ob = ob[1:]                                     # if <section> not in self.sections: continue
+        elif (len(ob) == 1 and isinstance(f, ast.If) and not f.orelse
+              and ast.unparse(f.test) == '%s in self.sections' % sec):
+            ob = list(f.body)                               # if <section> in self.sections: <item loop>
+        else:
+            pin(False, 'the section loop filters on membership in self.sections')
     pin(len(ob) == 1 and isinstance(ob[0], ast.For), 'the section loop holds exactly the item loop')
     inner = ob[0]
     pin(not inner.orelse and isinstance(inner.target, ast.Tuple) and len(inner.target.elts) == 2
@@ -404,6 +640,14 @@ def generate() -> dict:
     pin('self.split_ml_text_to_list = split_ml_text_to_list' in [ast.unparse(s) for s in init.body]
         and 'self.sections = sections' in [ast.unparse(s) for s in init.body], 'IniConfigParser.__init__')
 
+    helpers = {}
+    for n in tree.body:
+        if isinstance(n, ast.FunctionDef) and n.name not in FUNCS:
+            helpers[n.name] = n
+    for n in cls[0].body:
+        if isinstance(n, ast.FunctionDef) and n.name not in ('parse', '__init__', '__call__'):
+            helpers['self.' + n.name] = n
+    norm = Normaliser(helpers, 'self')
     sigs = {'is_quoted': signature(fq), 'unquote_str': signature(fu)}
     for n, sg in sigs.items():
         pin(len(sg) == 2, '%s takes two parameters' % n)
@@ -416,7 +660,7 @@ def generate() -> dict:
         for p, _ in sigs[name]:
             m.var(p)
             m.assigned.add(p)
-        text = m.block(strip_doc(fn.body))
+        text = m.block(norm.block(strip_doc(fn.body)))
         out.append('(* locals of %s *)' % name)
         for py, i in m.vars.items():
             out.append('Definition v_%s_%s : var := %d.' % (name, py, i))
@@ -431,7 +675,7 @@ def generate() -> dict:
     for p in (key, val):
         m.var(p)
         m.assigned.add(p)
-    text = m.block(body)
+    text = m.block(norm.block(body))
     out.append('(* locals of the item loop of IniConfigParser.parse *)')
     for py, i in m.vars.items():
         out.append('Definition v_item_%s : var := %d.' % (py, i))
